@@ -987,8 +987,12 @@ def real_dtd_elem(dtd_text: str):
         w = wild[0]
         assert cls.mixed and w.mixed and w.restrictions.min_occurs == 0 and w.restrictions.max_occurs == MAXSIZE and len(cls.attrs) == 1
         out = {"mixed": [c.name for c in w.choices]}
+    elif cls.extensions:
+        # <!ELEMENT e ANY>: an extension of xs:anyType (FlattenClassExtensions turns it into one optional wildcard)
+        e = cls.extensions[0]
+        assert len(cls.extensions) == 1 and e.type.native and e.type.qname.endswith("}anyType") and not cls.mixed and not [a for a in cls.attrs if not a.is_attribute]
+        out = {"any_extension": True}
     else:
-        assert not cls.extensions, "extension left on a DTD class"
         out = {"plain": [[a.name, a.restrictions.min_occurs, a.restrictions.max_occurs] for a in cls.attrs if not a.is_attribute]}
     return args, out
 
